@@ -15,6 +15,26 @@ check_oracle = cl.check_oracle
 
 def replay(body):
     a = body['args']
+    if 'batch' in a:
+        from libertem_blobfinder.common import correlation as cc
+        b = a['batch']
+        pattern = cl.pattern_from_desc(b['desc_built'])
+        frame = (np.array(b['ints'], dtype=np.int64) + b['baseline']).astype(b['dtype'])
+        fn = cc.process_frames_fast if b['method'] == 'fast' else cc.process_frames_full
+        try:
+            fn(pattern, frame[np.newaxis], np.asarray(b['peaks']))
+            pattern.radius = b['desc_now']['radius']
+            if b['desc_now'].get('radius_outer') is not None:
+                pattern.radius_outer = b['desc_now']['radius_outer']
+            o = fn(pattern, frame[np.newaxis], np.asarray(b['peaks']))
+            probs = check_oracle(cl.pattern_from_desc(b['desc_now']), frame.astype(np.float64), [tuple(q) for q in b['peaks']], b['method'], tuple(x[0] for x in o))
+        except Exception as e:  # noqa
+            probs = ['raised %s: %s' % (type(e).__name__, e)]
+        print(json.dumps({'failure_now': probs}, indent=1, default=str))
+        if probs:
+            print('VIOLATION property=C03 replay=(given)')
+            return 1
+        return 0
     pattern = cl.pattern_from_desc(a['pattern'])
     frame = (np.array(a['frame_ints'], dtype=np.float64) / a['one']).astype(np.float32)
     run = cl.run_fast if a['method'] == 'fast' else cl.run_full
@@ -47,7 +67,7 @@ def gen_cases(ctx, n, smax, cmax):
 
 def run(ctx):
     ctx.check_theorems()
-    ctx.check_generated(['eval', 'crop', 'k', 'kelev', 'klog', 'kcrop', 'ksrceval'])
+    ctx.check_generated(['eval', 'crop', 'k', 'kelev', 'klog', 'kcrop', 'ksrceval', 'dcommon'])
     rng = ctx.rng
     # ---------------- (K): model vs implementation on the same inputs ----------------
     cases = gen_cases(ctx, ctx.n(36, 300), 12, 4)
@@ -92,6 +112,44 @@ def run(ctx):
             fi = np.rint(frame.astype(np.float64) * 1024).astype(np.int64)
             ctx.violation('input', 'process_frame_%s output differs from its definition: %s' % (method, probs[0]),
                           case_replay(desc, fi, 1024, peaks, method, probs))
+            break
+    # (S2) batch entry points: wide dtypes carrying a large baseline, and pattern OBJECTS whose public parameters are changed
+    # between two uses (the classes read radius / radius_outer at query time) -- compared with the definitions for a fresh pattern
+    from libertem_blobfinder.common import correlation as cc
+    for k in range(ctx.n(16, 120)):
+        kind = ['Circular', 'RadialGradient', 'BackgroundSubtraction', 'RadialGradientBackgroundSubtraction'][k % 4]
+        r1, r2 = float(rng.choice([2.0, 2.5, 3.0])), float(rng.choice([1.5, 2.0, 3.5]))
+        search = 5.0
+        mk = lambda r: {'kind': kind, 'radius': r, 'search': search, 'radius_outer': (r + 1.0 if 'Background' in kind else None)}
+        pattern = cl.pattern_from_desc(mk(r1))
+        c = pattern.get_crop_size()
+        fy, fx = int(rng.integers(12, 26)), int(rng.integers(12, 26))
+        ints, fk = cl.rand_frame(rng, fy, fx, one=1)
+        base, dt = [(0, 'float32'), (2 ** 30, 'float64'), (-10 ** 9, 'float64'), (2 ** 27, 'int32'), (2 ** 40, 'int64')][int(rng.integers(0, 5))]
+        frame = (ints.astype(np.int64) + base).astype(dt)
+        peaks = cl.rand_peaks(rng, fy, fx, c, int(rng.integers(1, 4)), where='inside')
+        method = 'fast' if k % 2 == 0 else 'full'
+        fn = cc.process_frames_fast if method == 'fast' else cc.process_frames_full
+        desc_now = mk(r1)
+        try:
+            fn(pattern, frame[np.newaxis], np.asarray(peaks))                        # first use of the object
+            if k % 3 != 0:
+                pattern.radius = r2
+                if 'Background' in kind:
+                    pattern.radius_outer = r2 + 1.0
+                desc_now = mk(r2)
+            o = fn(pattern, frame[np.newaxis], np.asarray(peaks))
+            outs = tuple(x[0] for x in o)
+            probs = check_oracle(cl.pattern_from_desc(desc_now), frame.astype(np.float64), peaks, method, outs)
+        except Exception as e:  # noqa
+            probs = ['raised %s: %s' % (type(e).__name__, e)]
+        ctx.count(len(peaks), key=('batch', kind, r1, desc_now['radius'], dt, base, method, fy, fx))
+        ctx.hist('batch dtype/baseline', '%s/%s' % (dt, base))
+        if probs:
+            fail = 'process_frames_%s (%s frame with baseline %s, %s radius %s%s) differs from its definition: %s' % (
+                method, dt, base, kind, desc_now['radius'], '' if desc_now['radius'] == r1 else ' set on an object built with radius %s' % r1, probs[0])
+            ctx.violation('input', fail, {'kind': 'input', 'call': 'process_frames_%s' % method, 'args': {'batch': {'desc_built': mk(r1), 'desc_now': desc_now, 'ints': ints.tolist(),
+                          'baseline': base, 'dtype': dt, 'peaks': [list(map(int, q)) for q in peaks], 'method': method}}, 'failure': fail})
             break
     ctx.extra['oracle_frames'] = nS
     ctx.run_modes()
